@@ -104,24 +104,31 @@ class MolecularContainer:
         # make a new configuration to hold the average values
         avr_conformation = ConformationContainer(
             name='average', parameters=parameters, molecular_container=self)
-        container = self.conformations[self.conformation_names[0]]
-        for group in container.get_groups_for_calculations():
-            # new group to hold average values
-            avr_group = group.clone()
-            # sum up all groups ...
-            for name in self.conformation_names:
-                group_to_add = self.conformations[name].find_group(group)
-                if group_to_add:
-                    avr_group += group_to_add
-                else:
-                    str_ = (
-                        'Group {0:s} could not be found in '
-                        'conformation {1:s}.'.format(
-                            group.atom.residue_label, name))
-                    _LOGGER.warning(str_)
-            # ... and store the average value
-            avr_group = avr_group / len(self.conformation_names)
-            avr_conformation.groups.append(avr_group)
+        for conf_name in self.conformation_names:
+            container = self.conformations[conf_name]
+            for group in container.get_groups_for_calculations():
+                # already averaged (found in an earlier conformation)?
+                if avr_conformation.find_group(group):
+                    continue
+                # new group to hold average values
+                avr_group = group.clone()
+                # sum up all groups ...
+                num_found = 0
+                for name in self.conformation_names:
+                    group_to_add = self.conformations[name].find_group(group)
+                    if group_to_add:
+                        avr_group += group_to_add
+                        num_found += 1
+                    else:
+                        str_ = (
+                            'Group {0:s} could not be found in '
+                            'conformation {1:s}.'.format(
+                                group.atom.residue_label, name))
+                        _LOGGER.warning(str_)
+                # ... and store the average over the conformations that
+                # contain the group
+                avr_group = avr_group / num_found
+                avr_conformation.groups.append(avr_group)
         # store information on coupling in the average container
         if len(list(filter(lambda c: c.non_covalently_coupled_groups,
                            self.conformations.values()))):
